@@ -190,6 +190,7 @@ func (c *channel) ID() int64 {
 
 // Write a message through the Pipeline
 func (c *channel) Write(message Message) error {
+	c.vp("w.check", nil)
 	if err := c.closedErr(); nil != err {
 		return err
 	}
@@ -209,6 +210,7 @@ func (c *channel) Trigger(event Event) {
 
 // Close through the Pipeline
 func (c *channel) Close(err error) {
+	c.vp("c.cas", nil)
 	if atomic.CompareAndSwapInt32(&c.closed, 0, 1) {
 
 		// wait async send finished.
@@ -217,20 +219,30 @@ func (c *channel) Close(err error) {
 			// wait until the queue is drained AND the sender has released (the
 			// queue is read first: empty queue, then idle flag, means every
 			// packet accepted before has been written and flushed)
+			c.vp("c.poll", nil)
 			for (c.untilWrite || maxWaitNum < 10) && (len(c.writeQueue) > 0 || atomic.LoadInt32(&c.running) != idle) {
 				// the sender released while packets were still queued: send them from here
+				c.vp("c.takeover", nil)
 				if atomic.CompareAndSwapInt32(&c.running, idle, running) {
 					c.writeOnce()
+					c.vp("c.poll", nil)
 					continue
 				}
 				maxWaitNum++
+				if c.vpPoll() {
+					continue
+				}
 				time.Sleep(time.Millisecond * 100)
 			}
 		}
 
+		c.vp("c.seterr", nil)
 		c.closeErr.Store(closeReason{err})
+		c.vp("c.tclose", nil)
 		c.transport.Close()
+		c.vp("c.cancel", nil)
 		c.cancel()
+		c.vp("c.inactive", nil)
 
 		c.invokeMethod(func() {
 			c.pipeline.FireChannelInactive(err)
@@ -240,6 +252,7 @@ func (c *channel) Close(err error) {
 
 // Writev to write [][]byte for optimize syscall
 func (c *channel) Writev(p [][]byte) (n int64, err error) {
+	c.vp("w.check", nil)
 	if err = c.closedErr(); nil != err {
 		return 0, err
 	}
@@ -250,6 +263,7 @@ func (c *channel) Writev(p [][]byte) (n int64, err error) {
 	}
 
 	// sync write
+	c.vp("w.lock", c.verifLockFree)
 	c.writeLock.Lock()
 	defer c.writeLock.Unlock()
 	if n, err = c.transport.Writev(p); nil == err {
@@ -266,6 +280,7 @@ func (c *channel) Write1(p []byte) (n int, err error) {
 // CtxWrite1 channels with asynchronous write enabled, writes will block until the write is successfully sent to the queue or times out.
 // for synchronous write channels, SetDeadline will be called to ensure that the blocking write operation is interrupted after a timeout.
 func (c *channel) CtxWrite1(ctx context.Context, p []byte) (n int, err error) {
+	c.vp("w.check", nil)
 	if err = c.closedErr(); nil != err {
 		return 0, err
 	}
@@ -277,6 +292,7 @@ func (c *channel) CtxWrite1(ctx context.Context, p []byte) (n int, err error) {
 	}
 
 	// sync write
+	c.vp("w.lock", c.verifLockFree)
 	c.writeLock.Lock()
 	defer c.writeLock.Unlock()
 
@@ -297,6 +313,7 @@ func (c *channel) CtxWrite1(ctx context.Context, p []byte) (n int, err error) {
 // CtxWritev channels with asynchronous write enabled, writes will block until the write is successfully sent to the queue or times out.
 // for synchronous write channels, SetDeadline will be called to ensure that the blocking write operation is interrupted after a timeout.
 func (c *channel) CtxWritev(ctx context.Context, pv [][]byte) (n int64, err error) {
+	c.vp("w.check", nil)
 	if err = c.closedErr(); nil != err {
 		return 0, err
 	}
@@ -308,6 +325,7 @@ func (c *channel) CtxWritev(ctx context.Context, pv [][]byte) (n int64, err erro
 	}
 
 	// sync write
+	c.vp("w.lock", c.verifLockFree)
 	c.writeLock.Lock()
 	defer c.writeLock.Unlock()
 
@@ -328,6 +346,7 @@ func (c *channel) CtxWritev(ctx context.Context, pv [][]byte) (n int64, err erro
 // ReadFrom reads data from r until EOF or error.
 // The return value n is the number of bytes read.
 func (c *channel) ReadFrom(r io.Reader) (n int64, err error) {
+	c.vp("w.check", nil)
 	if err = c.closedErr(); nil != err {
 		return 0, err
 	}
@@ -370,6 +389,7 @@ func (c *channel) Writer() io.Writer {
 }
 
 func (c *channel) write1(p []byte, clone bool) (n int, err error) {
+	c.vp("w.check", nil)
 	if err = c.closedErr(); nil != err {
 		return 0, err
 	}
@@ -381,6 +401,7 @@ func (c *channel) write1(p []byte, clone bool) (n int, err error) {
 	}
 
 	// sync write
+	c.vp("w.lock", c.verifLockFree)
 	c.writeLock.Lock()
 	defer c.writeLock.Unlock()
 	if n, err = c.transport.Write(p); nil == err {
@@ -407,6 +428,7 @@ func (c *channel) asyncWrite(ctx context.Context, p []byte, clone bool) (int64, 
 	// put packet to send queue
 	var packet = p
 
+	c.vp("w.select", func() bool { return c.verifSelectReady(ctx) })
 	if c.untilWrite {
 		select {
 		case <-ctx.Done():
@@ -430,7 +452,9 @@ func (c *channel) asyncWrite(ctx context.Context, p []byte, clone bool) (int64, 
 	}
 
 	// try send
+	c.vp("w.cas", nil)
 	if atomic.CompareAndSwapInt32(&c.running, idle, running) {
+		c.vp("w.exec", nil)
 		c.executor.Exec(c.writeOnce)
 	}
 	return int64(dataLen), nil
@@ -456,6 +480,7 @@ func (c *channel) asyncWritev(ctx context.Context, p [][]byte) (int64, error) {
 	// put packet to send queue
 	var packet = dataBuff[:offset]
 
+	c.vp("w.select", func() bool { return c.verifSelectReady(ctx) })
 	if c.untilWrite {
 		select {
 		case <-ctx.Done():
@@ -479,7 +504,9 @@ func (c *channel) asyncWritev(ctx context.Context, p [][]byte) (int64, error) {
 	}
 
 	// try send
+	c.vp("w.cas", nil)
 	if atomic.CompareAndSwapInt32(&c.running, idle, running) {
+		c.vp("w.exec", nil)
 		c.executor.Exec(c.writeOnce)
 	}
 	return dataLen, nil
@@ -564,10 +591,12 @@ func (c *channel) readLoop(done func()) {
 
 	func() {
 		defer done()
+		c.vp("r.active", nil)
 		c.invokeMethod(c.pipeline.FireChannelActive)
 	}()
 
 	for {
+		c.vp("r.loop", nil)
 		select {
 		case <-c.ctx.Done():
 			return
@@ -584,6 +613,7 @@ func (c *channel) writeOnce() {
 
 	defer func() {
 		if err := recover(); nil != err {
+			c.vp("s.recover", nil)
 			atomic.StoreInt32(&c.running, idle)
 			c.Close(AsException(err))
 		}
@@ -596,6 +626,7 @@ func (c *channel) writeOnce() {
 
 		// more packet will be merged
 		for len(sendBuffers) < cap(sendBuffers) {
+			c.vp("s.poll", nil)
 			// poll packet
 			select {
 			case pkt := <-c.writeQueue:
@@ -612,6 +643,7 @@ func (c *channel) writeOnce() {
 
 		if len(sendBuffers) > 0 {
 
+			c.vp("s.writev", nil)
 			utils.AssertLong(c.transport.Writev(sendBuffers))
 
 			// clear buffer ref
@@ -624,18 +656,23 @@ func (c *channel) writeOnce() {
 				recycleBuffers[index] = nil
 			}
 
+			c.vp("s.len1", nil)
 			// continue to send remain packets
 			if len(c.writeQueue) > 0 {
 				continue
 			}
 		}
 
+		c.vp("s.flush", nil)
 		// flush transport buffer
 		utils.Assert(c.transport.Flush())
 
+		c.vp("s.release", nil)
 		// double check
 		atomic.StoreInt32(&c.running, idle)
+		c.vp("s.recheck", nil)
 		if size := len(c.writeQueue); size > 0 {
+			c.vp("s.reacq", nil)
 			if atomic.CompareAndSwapInt32(&c.running, idle, running) {
 				continue
 			}
